@@ -628,8 +628,8 @@ Fixpoint holds_from (prev : cstate) (cs : list call) (obs : list ostep) : bool :
 Definition holds_b (k : nat) (cs : list call) (obs : list ostep) : bool :=
   holds_from ([], repeat [] k) cs obs.
 
-(* the clause that is NOT part of holds_b because the repaired tree still violates it for
-   merges of builders that share ancestry: node uids pairwise distinct inside every builder *)
+(* node uids pairwise distinct inside every built graph (kept separate from holds_b so that the
+   driver can name the failing clause) *)
 Definition builder_graphs (s : cstate) : list cnode := fst s.
 Definition uids_ok_b (obs : list ostep) : bool :=
   forallb (fun o => match o_ret o with
